@@ -26,6 +26,7 @@ type c08Placement struct {
 }
 
 func c08Run(c *fw.Ctx) {
+	c.Retries = 2 // socket-based harness: tolerate a transient glitch while replaying a prefix
 	vtime.SetManual(harness.T0)
 	defer vtime.SetReal()
 	envs := &authEnvCache{}
